@@ -626,13 +626,6 @@ func (e *Evaluator) referenceEvaluation(
 	case base.UNKNOWN, base.UNTYPED, base.UNION:
 		p.SkipToTargetToken("]")
 
-		if ctx.IsDefineRound() {
-			return fmt.Errorf(
-				"type mismatch. %s is not Array or Hash",
-				objectT.ToString(),
-			)
-		}
-
 		p.SetLastEvaluatedT(base.MakeUntyped())
 
 		return nil
